@@ -317,9 +317,34 @@ def _is_pin(p):
         and (z3.is_rational_value(p.arg(1)) or z3.is_int_value(p.arg(1)))
 
 
+def run_native_script(src, repo_root):
+    """Run a small self-contained program natively (PYTHONPATH=<repo>); it prints one JSON object."""
+    env = dict(os.environ)
+    env['PYTHONPATH'] = repo_root
+    p = subprocess.run([NATIVE_PY, '-W', 'ignore', '-c', src], capture_output=True, text=True, env=env, timeout=120)
+    out = p.stdout.strip().splitlines()
+    try:
+        return json.loads(out[-1]) if out else {'error': p.stderr[-400:]}
+    except ValueError:
+        return {'error': (p.stdout + p.stderr)[-400:]}
+
+
 def try_replay(world, kind, name, prop_id, ob, verdict, pr):
+    if kind == 'lemma':
+        # a client lemma may supply a native program that re-enacts the failing clause on the real code
+        import importlib
+        mod = importlib.import_module('props.' + prop_id)
+        lemma = dict(mod.LEMMAS).get(name)
+        gen = getattr(lemma, 'native_replay', None)
+        if gen is None:
+            return {'status': 'not-applicable', 'detail': 'client lemma without a native re-enactment'}
+        src = gen(ob.name, verdict.model or {})
+        if src is None:
+            return {'status': 'not-applicable', 'detail': 'no native re-enactment for this clause'}
+        res = run_native_script(src, world.repo.root)
+        return {'status': 'confirmed' if res.get('violated') else 'not-confirmed', 'program': src, 'native_outcome': res}
     if kind != 'function' or pr.replay_state is None or verdict.z3model is None:
-        return {'status': 'not-applicable', 'detail': 'client lemma or no model'}
+        return {'status': 'not-applicable', 'detail': 'no model'}
     contract = world.contracts[name]
     res = replay_with_model(world, contract, pr.replay_state, ob.pc, verdict.z3model)
     if res.get('status') == 'confirmed':
@@ -360,6 +385,8 @@ def replay_with_model(world, contract, replay_state, pc, m):
     ctx.pc = strip_sqrt_axioms([p for p in pc]) + pins
     ctx.counter = {'replay': 1}
     ctx.expand_sums = True
+    ctx.replaying = True
+    ctx.events = [('warning', w) for w in nat.get('warnings', [])]
     writes = [('param:' + k, 'native run changed this argument') for k in nat.get('changed', [])
               if not (func.name == '__init__' and k == order[0])]
     from .nplib import PI
